@@ -1,7 +1,7 @@
 (* C03 - No silent change, no phantom change, consistent counts. *)
 From Coq Require Import List NArith Arith Bool String.
 From WMD Require Import Gen.Tables Lib.Str Lib.PyChars Lib.Escape Lib.Difflib Model.RenderTokens Model.RenderMerge
-     Proofs.DifflibProofs Proofs.MergeProofs Proofs.TokenProofs Proofs.AssembleProofs Proofs.RenderProofs.
+     Proofs.DifflibProofs Proofs.DifflibSound Proofs.MergeProofs Proofs.TokenProofs Proofs.AssembleProofs Proofs.RenderProofs Proofs.UrlRuleProofs.
 Import ListNotations.
 Open Scope N_scope.
 
@@ -50,6 +50,28 @@ Proof. intros. unfold token_opcodes. apply insensitive_opcodes_chain. Qed.
 (* spacers carry no text and the cap conserves every content token's chunks *)
 Theorem C03_spacer_cap_keeps_content : forall l cap, spacers_blank l -> flat_ne (limit_spacers l cap) = flat_ne l.
 Proof. exact limit_conserves. Qed.
+
+(* detection: if no change is reported (rules off), both token lists have the same length and
+   pairwise the same text (images: a common source) - so no differing word, link target or
+   embedded element is ever silent.  Under rules: pairwise key-equal or == under the rules. *)
+Theorem C03_detection : forall old new,
+  change_count (count_changes (token_opcodes None old new)) = 0%nat ->
+  (List.length old = List.length new)%nat /\
+  forall i, (i < List.length old)%nat -> same_visible (nth i old dtoken) (nth i new dtoken).
+Proof. exact no_change_means_same_tokens. Qed.
+
+Theorem C03_detection_under_rules : forall rules old new,
+  change_count (count_changes (token_opcodes rules old new)) = 0%nat ->
+  (List.length old = List.length new)%nat /\
+  forall i, (i < List.length old)%nat ->
+    token_same_key (nth i new dtoken) (nth i old dtoken) = true \/ token_eq rules (nth i old dtoken) (nth i new dtoken) = true.
+Proof. exact no_change_means_related. Qed.
+
+(* every block the matcher returns relates its elements pairwise (dict key or ==), for any sequences *)
+Theorem C03_blocks_sound : forall rules (old new : list token) alo ahi blo bhi,
+  block_snd token token_same_key (token_eq rules) dtoken old new
+    (find_longest_match token token_same_key (token_eq rules) dtoken old new alo ahi blo bhi).
+Proof. intros. apply flm_sound. Qed.
 
 Theorem C03_tables : Tables.matcher_threshold = 2 /\ Tables.max_spacers = 2500.
 Proof. split; reflexivity. Qed.
